@@ -12,6 +12,15 @@ contents (ordered) of every instance.  The independent oracle `Ref` is a small r
 from the property text; it is compared with the implementation in the same way (unordered), and a difference is
 classified by the clause of the property that fails.  A third part drives real RollPass / Transport /
 PassSequence objects through `solve` and checks the root-hook sentences of the property on them.
+
+Second generated module lean/PyrollModel/Gen/C02Extra.lean (driver/translate/c02_extra.py): the executing marks of
+HookFunction.__call__ (set before the function runs, removed in the `finally` - also when it RAISED), the stores
+(tryfirst / normal / trylast) and their order, what add_function creates and remove_function / a `with` block removes
+(registrations are a multiset: one function may be registered several times), the root_hooks list API and the shallow
+copy are consumed by the model; the op lines `reg`, `exit`, `radd`, `rbefore`, `rafter`, `rremove` drive them on the real
+objects, the executing marks and the root list are part of what is compared after every op.  After every history
+every instance is compared with a TWIN that never failed / never remembered anything (`twin_check`).  Shallow copies
+(`copy.copy(host)`) have a small model of their own (lean/PyrollModel/LifecycleCopy.lean, lean/PyrollProps/C02Copy.lean).
 """
 import copy
 import itertools
@@ -20,7 +29,7 @@ import re
 from . import common  # noqa: F401  (silences the pyroll loggers)
 
 ID = "C02"
-LEAN_MODULES = ["PyrollProps.C02"]
+LEAN_MODULES = ["PyrollProps.C02", "PyrollProps.C02Copy"]
 MODEL = "c02"
 MODEL_MODULES = ["PyrollModel.LifecycleDriver"]
 
@@ -29,25 +38,43 @@ def translate(ctx):
     """(T) re-read pyroll/core/hooks.py of the working tree -> lean/PyrollModel/Gen/C02Hooks.lean (role lines of
     Hook.__get__/__set__/__delete__/get_result, reevaluate_cache, has_*, __attrs__, evaluate_and_set_hooks, root_hooks + the
     facts the model consumes: where has_set / has_cached look, what reevaluate_cache does, the None check and its position)"""
-    from ..translate import hooks_skeleton
+    from ..translate import hooks_skeleton, c02_extra
     info = hooks_skeleton.emit_for(ctx, ID)
     ctx.notes["hooks_source"] = {k: v for k, v in info["facts"].items() if k in hooks_skeleton.SELECTION[ID]["fact_names"]}
+    # second module (own extractor on top of the shared one): executing marks of HookFunction.__call__, stores / tiers,
+    # add_function / remove_function / with block, Hook.__set__ / __delete__, the root_hooks list API,
+    # evaluate_and_set_hooks' loop, HookHost.__copy__ / __hooks__ -> lean/PyrollModel/Gen/C02Extra.lean
+    extra = c02_extra.emit(ctx)
+    ctx.notes["hooks_source_extra"] = {k: v for k, v in extra["facts"].items()}
 
 
 RULE = ("random operation histories (5-40 ops, 40% of the ops stay on the previous (instance, hook) pair; a removal is "
         "often followed by re-evaluation and a look at the hook that lost the implementation; root hooks declared up "
         "front in half of the cases) over 1-3 fresh classes (linear hierarchies and independent roots, plain HookHost or "
         "Unit.Profile based), 1-5 instances, 2-5 hooks; implementations and explicit callables are data (constant incl. "
-        "0/False, None, read a lower-numbered hook and combine, read it if has_value) with invocation logging; an explicit "
+        "0/False, None, read a lower-numbered hook and combine, read it if has_value; a third of the reading "
+        "implementations take the `cycle` parameter) with invocation logging; registrations go through add_function, "
+        "Hook.__call__ with and without function, `with hook(f, ...):` and the HookFunction of an earlier registration, "
+        "into the tryfirst / normal / trylast store; 10% of the steps are scripted: (a) a read that FAILS first - a "
+        "(mostly cycle-aware) implementation reads a hook that has no value (deleted, or an explicit callable yielding "
+        "None -> TypeError), probed 1-3 times by read / has_value / root evaluation or inside reevaluate_cache, then the "
+        "input is supplied (explicit value or implementation) and the hook is read / re-evaluated again; (b) one function "
+        "registered a second time on the same hook (other store, with block, other class), ONE registration removed "
+        "(remove_function / leaving the block), then re-evaluation or a fresh computation, also on a new instance; (c) "
+        "the root-hook list edited through add / insert_before / insert_after / remove_last (positions mostly present) "
+        "and evaluated; an explicit "
         "callable is drawn from every kind python offers for its number of parameters (lambda, def, bound method, bound "
         "classmethod, staticmethod, functools.partial of a function / of a bound method, callable object and its bound "
         "__call__, builtin method-wrapper, functools.wraps wrapper of a function / of a bound method, optional second "
         "parameter, *args, keyword-only option) and is read at once in half of the cases; a case is "
         "one history, non-trivial = it contains successful reads served from at least two different sources (explicit / "
-        "remembered / computed) or a re-evaluation of a non-empty cache; distinct by the canonical op list. Plus solved "
-        "real pass sequences (two passes, a transport between) for the root-hook sentences.")
+        "remembered / computed) or a re-evaluation of a non-empty cache; distinct by the canonical op list; after every "
+        "history every instance is compared with a TWIN (new instance, same explicit values) hook by hook. Plus 150 "
+        "(thorough 3000) shallow-copy histories (new / copy.copy / assign / delete / read / cache clear / new cache "
+        "dictionary, 1-5 hosts) and solved real pass sequences (two passes, a transport between) for the root-hook "
+        "sentences.")
 ASSUMPTIONS = [
-    "source tie (T): pyroll/core/hooks.py is read with ast into canonical role lines and typed facts (driver/translate/hooks_skeleton.py, trusted); the facts the model consumes are also executed against the imported pyroll.core.hooks on every run (self_check), the role lines are compared with the hand-written shape lean/PyrollModel/HookSource.lean by the theorem hooks_source_as_modelled",
+    "source tie (T): pyroll/core/hooks.py is read with ast into canonical role lines and typed facts (driver/translate/hooks_skeleton.py and driver/translate/c02_extra.py, trusted); the facts the model consumes are also executed against the imported pyroll.core.hooks on every run (self_check), the role lines are compared with the hand-written shape lean/PyrollModel/HookSource.lean by the theorems hooks_source_as_modelled / hooks_source_extra_as_modelled",
     "CPython dict insertion order, descriptor protocol, inspect.signature arity and hasattr/getattr-default "
     "semantics are modelled, not verified",
     "the model classifies an explicit callable only by the number of parameters inspect.signature reports for it (call0 / "
@@ -56,12 +83,23 @@ ASSUMPTIONS = [
     "functools.wraps wrapper, defaults, *args) behave as their class says is checked by the correspondence and demanded "
     "by the oracle, not proved; callables without a signature (builtin types) or with keyword-only parameters and no "
     "positional one are outside the generated domain",
-    "the model is tied to the code by sampled differential runs (result, invocation trace and the ordered __dict__ / "
-    "__cache__ of every instance compared after every op)",
+    "the model is tied to the code by sampled differential runs (result, invocation trace, the ordered __dict__ / "
+    "__cache__ of every instance, the executing marks (_active_instances) of every registration made by the harness and "
+    "the root-hook list compared after every op)",
+    "a `cycle`-aware implementation enters the model as `if cycle: return None` in front of its body (Body.cread / ctry): "
+    "that is what the harness registers and what the implementations of pyroll.core that take `cycle` do; generated "
+    "dependencies are acyclic (an implementation reads lower-numbered hooks only), so on a correct tree `cycle` is never "
+    "true in the sampled runs - the model's treatment of real cycles is covered by its theorems, not by the correspondence",
+    "the root-hook list the harness edits is an instance of the real class `type(root_hooks)` holding the Hook objects of "
+    "the case's classes; it is spliced into the real `root_hooks` for the duration of one evaluate_and_set_hooks call",
+    "shallow copies: a separate small model (hosts referring to dictionary objects) - the life-cycle model proper gives "
+    "every instance stores of its own, which is what constructors and the hand-over produce; that copy.copy(host) shares "
+    "the remembered-value dictionary with its original is modelled, proved (copy_not_independent) and recorded as an "
+    "observation, not demanded or forbidden by the oracle (the property text does not speak about copies)",
     "outside this model (generator produces none of them; they belong to C07 / C01 / C16): non-finite results "
-    "(ValueError path of Hook.__get__), cyclic hook dependencies (per-(function, instance) cycle marks, RecursionError "
-    "path; the model's fuel stands for the recursion limit), wrappers and tryfirst/trylast tiers (the resolution "
-    "order used here is MRO-major, latest registration first)",
+    "(ValueError path of Hook.__get__), cyclic hook dependencies in the sampled runs (RecursionError path; the model's "
+    "fuel stands for the recursion limit), wrappers (the resolution order used here is store-major tryfirst / normal / "
+    "trylast, then MRO-major, latest registration first)",
     "hook values are integers and booleans (0 and False being the falsy ones); numpy values occur only in the "
     "solved-sequence part",
 ]
@@ -112,8 +150,27 @@ def body_of(tok):
 
 
 def make_function(body_tok, log, ident):
-    """a python function `f(self)` for a body token; every invocation appends `ident` to `log`"""
+    """a python function `f(self)` - `f(self, cycle)` for the `cread` / `ctry` bodies, which return None when `cycle` is
+    true, as the implementations of pyroll.core that take `cycle` do - for a body token; every invocation appends `ident`
+    to `log`"""
     b = body_of(body_tok)
+    if b[0] in ("cread", "ctry"):
+        _, m, k, c = b
+        if b[0] == "cread":
+            def f(self, cycle):
+                log.append(ident)
+                if cycle:
+                    return None
+                return getattr(self, f"h{m}") * k + c
+        else:
+            def f(self, cycle):
+                log.append(ident)
+                if cycle:
+                    return None
+                if self.has_value(f"h{m}"):
+                    return getattr(self, f"h{m}") * k + c
+                return None
+        return f
     if b[0] == "const":
         v = b[1]
 
@@ -298,11 +355,41 @@ class Real:
         self.nhooks = nhooks
         self.classes = {}
         self.insts = []
-        self.hfs = {}
+        self.hfs = {}            # registration key -> HookFunction (kept after removal: removing twice must be harmless)
+        self.funcs = {}          # function id -> python function (one function may be registered several times)
         self.log = []
-        self.roots = []
+        self.rootlist = type(root_hooks)()     # a real `_RootHooksList` of our own, edited through its API
+        self.hook_ids = {}       # id(Hook object) -> (class, hook number)
         self.explicit = []       # (object assigned, token): bound methods / builtins cannot carry an attribute
         self.unit = Unit(label="c02") if mode == "profile" else None
+
+    def hookobj(self, c, n):
+        h = getattr(self.classes[c], f"h{n}")
+        self.hook_ids[id(h)] = (c, n)
+        return h
+
+    def register(self, key, fn, c, n, btok, tier, via):
+        """one registration of function `fn` (created on first use) on hook `n` of class `c`"""
+        f = self.funcs.get(fn)
+        if f is None:
+            f = self.funcs[fn] = make_function(btok, self.log, fn)
+        hook = getattr(self.classes[c], f"h{n}")
+        flags = dict(tryfirst=tier == "first", trylast=tier == "last")
+        if via == "hf":
+            # the HookFunction of an earlier registration of this function is handed in (add_function unwraps it)
+            old = [h for h in self.hfs.values() if h.function is f]
+            hf = hook.add_function(old[-1] if old else f, **flags)
+        elif via == "call":
+            hf = hook(f, **flags)                       # Hook.__call__ with the function
+        elif via == "deco":
+            hf = hook(**flags)(f)                       # decorator form with flags
+        elif via == "with":
+            hf = hook(f, **flags)                       # `with hook(f, tryfirst=True):` - the block is left by `exit`
+            hf.__enter__()
+        else:
+            hf = hook.add_function(f, **flags)
+        self.hfs[key] = hf
+        return "ok"
 
     def idx(self, o):
         for k, x in enumerate(self.insts):
@@ -394,25 +481,40 @@ class Real:
             return self.guarded(lambda: o.__cache__.clear() or "ok")
         if name == "add":
             ident, c, n, btok = op[1:]
-            f = make_function(btok, self.log, ident)
-
-            def register():
-                self.hfs[ident] = getattr(self.classes[c], f"h{n}").add_function(f)
-                return "ok"
-            return self.guarded(register)
+            return self.guarded(lambda: self.register(ident, ident, c, n, btok, "normal", "add"))
+        if name == "reg":
+            key, fn, c, n, btok, tier, via = op[1:]
+            return self.guarded(lambda: self.register(key, fn, c, n, btok, tier, via))
         if name == "remove":
-            hf = self.hfs.pop(op[1], None)
+            hf = self.hfs.get(op[1])
             if hf is None:
                 return "not-registered"
             return self.guarded(lambda: (hf.hook.remove_function(hf), "ok")[1])
+        if name == "exit":
+            hf = self.hfs.get(op[1])
+            if hf is None:
+                return "not-registered"
+            return self.guarded(lambda: (hf.__exit__(None, None, None), "ok")[1])
+        if name == "radd":
+            return self.guarded(lambda: (self.rootlist.add(self.hookobj(*op[1])), "ok")[1])
+        if name == "rbefore":
+            return self.guarded(lambda: (self.rootlist.insert_before(self.hookobj(*op[1]), self.hookobj(*op[2])), "ok")[1])
+        if name == "rafter":
+            return self.guarded(lambda: (self.rootlist.insert_after(self.hookobj(*op[1]), self.hookobj(*op[2])), "ok")[1])
+        if name == "rremove":
+            return self.guarded(lambda: (self.rootlist.remove_last(self.hookobj(*op[1])), "ok")[1])
         if name in ("hasset", "hascached", "hassoc", "hasvalue"):
             o = self.insts[op[1]]
             meth = {"hasset": "has_set", "hascached": "has_cached", "hassoc": "has_set_or_cached",
                     "hasvalue": "has_value"}[name]
             return self.guarded(lambda: bool(getattr(o, meth)(f"h{op[2]}")) and "True" or "False")
         if name == "roots":
-            self.roots = list(op[1])
-            return "ok"
+            def fill():
+                self.rootlist = type(self.root_hooks)()
+                for e in op[1]:
+                    self.rootlist.add(self.hookobj(*e))
+                return "ok"
+            return self.guarded(fill)
         if name == "fb":
             self.insts[op[1]].__dict__["_fb"] = None if op[2] is None else self.insts[op[2]]
             return "ok"
@@ -420,7 +522,7 @@ class Real:
             o = self.insts[op[1]]
             saved = list(self.root_hooks)
             try:
-                self.root_hooks.extend(getattr(self.classes[c], f"h{n}") for (c, n) in self.roots)
+                self.root_hooks.extend(self.rootlist)
                 try:
                     res = o.evaluate_and_set_hooks()
                     return "vals:None:" + comma([tok_of(x) for x in res])
@@ -451,6 +553,23 @@ class Real:
             fb = o.__dict__.get("_fb")
             out.append((self.cidx(type(o)), d, c, None if fb is None else self.idx(fb)))
         return out
+
+    def marks(self):
+        """the executing marks that are set at this moment: `key@instance` for every registration made by the harness"""
+        out = []
+        for key, hf in self.hfs.items():
+            act = getattr(hf, "_active_instances", None)
+            if not act:
+                continue
+            for k, o in enumerate(self.insts):
+                if id(o) in act:
+                    out.append((key, k))
+            if not any(id(o) in act for o in self.insts):
+                out.append((key, "?"))
+        return comma([f"{a}@{b}" for a, b in sorted(out, key=str)])
+
+    def roots(self):
+        return [self.hook_ids.get(id(h), ("?", "?")) for h in self.rootlist]
 
 
 def tok_res(v):
@@ -487,18 +606,22 @@ class Ref:
     def __init__(self):
         self.mro = {}
         self.objs = []           # dict(cls, ex: {n: tok}, mem: {n: value-or-None}, fb)
-        self.regs = []           # (id, cls, hook, body)
+        self.regs = []           # (registration key, function id, cls, hook, body, tier) in registration order
         self.roots = []
         self.trace = []
 
     def compute(self, i, n):
+        """the implementations registered at this moment, highest priority first: `tryfirst` registrations, then the
+        ordinary ones, then `trylast` (documented meaning of the flags); within a priority the most derived class first,
+        the latest registration first.  A function registered several times is consulted once per registration."""
         o = self.objs[i]
-        for k in self.mro[o["cls"]]:
-            for (ident, c, h, b) in reversed([r for r in self.regs if r[1] == k and r[2] == n]):
-                self.trace.append(ident)
-                v = self.body(i, b)
-                if v is not None:
-                    return v
+        for tier in ("first", "normal", "last"):
+            for k in self.mro[o["cls"]]:
+                for (key, fn, c, h, b, t) in reversed([r for r in self.regs if r[2] == k and r[3] == n and r[5] == tier]):
+                    self.trace.append(fn)
+                    v = self.body(i, b)
+                    if v is not None:
+                        return v
         return None
 
     def body(self, i, b):
@@ -507,7 +630,8 @@ class Ref:
         if b[0] == "none":
             return None
         _, m, k, c = b
-        if b[0] == "try":
+        # `cread` / `ctry`: implementations that take `cycle`; a fresh computation is no cycle, so they are `read` / `try`
+        if b[0] in ("try", "ctry"):
             try:
                 self.read(i, m)
             except RefAttr:
@@ -574,9 +698,27 @@ class Ref:
         elif name == "clear":
             self.objs[op[1]]["mem"].clear()
         elif name == "add":
-            self.regs.append((op[1], op[2], op[3], body_of(op[4])))
-        elif name == "remove":
+            self.regs.append((op[1], op[1], op[2], op[3], body_of(op[4]), "normal"))
+        elif name == "reg":
+            # one MORE registration (a function may be registered several times; each registration is removed on its own)
+            self.regs.append((op[1], op[2], op[3], op[4], body_of(op[5]), op[6]))
+        elif name in ("remove", "exit"):
+            # exactly the registration given (leaving a `with` block = removing the registration the block made)
             self.regs = [r for r in self.regs if r[0] != op[1]]
+        elif name == "radd":
+            self.roots.append(tuple(op[1]))
+        elif name in ("rbefore", "rafter"):
+            pos, item = tuple(op[1]), tuple(op[2])
+            if pos not in self.roots:
+                return "ValueError"
+            k = self.roots.index(pos) + (1 if name == "rafter" else 0)
+            self.roots = self.roots[:k] + [item] + self.roots[k:]
+        elif name == "rremove":
+            item = tuple(op[1])
+            if item not in self.roots:
+                return "ValueError"
+            k = max(j for j, e in enumerate(self.roots) if e == item)
+            self.roots = self.roots[:k] + self.roots[k + 1:]
         elif name == "hasset":
             return "True" if op[2] in self.objs[op[1]]["ex"] else "False"
         elif name == "hascached":
@@ -593,7 +735,7 @@ class Ref:
                     return "False"
             return self.guarded(go)
         elif name == "roots":
-            self.roots = list(op[1])
+            self.roots = [tuple(e) for e in op[1]]
         elif name == "fb":
             self.objs[op[1]]["fb"] = op[2]
         elif name == "evalroot":
@@ -649,6 +791,10 @@ def to_line(op):
         return "roots " + comma([f"{c}:{h}" for c, h in op[1]])
     if n == "fb":
         return f"fb {op[1]} {'_' if op[2] is None else op[2]}"
+    if n in ("radd", "rremove"):
+        return f"{n} {op[1][0]}:{op[1][1]}"
+    if n in ("rbefore", "rafter"):
+        return f"{n} {op[1][0]}:{op[1][1]} {op[2][0]}:{op[2][1]}"
     return " ".join(str(x) for x in op)
 
 
@@ -665,6 +811,12 @@ def parse_line(line):
         return ("assign", int(t[1]), int(t[2]), t[3]) + tuple(t[4:5])
     if n == "add":
         return ("add", int(t[1]), int(t[2]), int(t[3]), t[4])
+    if n == "reg":           # reg <registration key> <function id> <class> <hook> <body> <first|normal|last> <via>
+        return ("reg", int(t[1]), int(t[2]), int(t[3]), int(t[4]), t[5], t[6], t[7])
+    if n in ("radd", "rremove"):
+        return (n, tuple(int(y) for y in t[1].split(":")))
+    if n in ("rbefore", "rafter"):
+        return (n, tuple(int(y) for y in t[1].split(":")), tuple(int(y) for y in t[2].split(":")))
     return (n,) + tuple(int(x) for x in t[1:])
 
 
@@ -674,7 +826,11 @@ def parse_line(line):
 VALS = ["i0", "bF", "bT", "i1", "i2", "i5", "i-3", "i7", "i0", "bF"]
 
 
-def gen_body(rng, n, allow_none=True):
+def gen_body(rng, n, allow_none=True, cycle_ok=False):
+    """body of an implementation of hook n (or of a one-parameter explicit callable): a constant, None, or a read of a
+    LOWER-numbered hook (so the dependencies are acyclic); with `cycle_ok` (registered implementations only - an explicit
+    callable with a second parameter would not be a one-argument callable) a third of the reading bodies take the `cycle`
+    parameter and return None when it is true, as the implementations of pyroll.core do"""
     r = rng.random()
     if n == 0 or r < 0.45:
         if allow_none and rng.random() < 0.25:
@@ -682,7 +838,14 @@ def gen_body(rng, n, allow_none=True):
         return "const:" + rng.choice(VALS)
     m = rng.randrange(n)
     k, c = rng.choice([1, 2, 3, -1, 10]), rng.choice([0, 1, 100, -7])
-    return f"{'read' if r < 0.75 else 'try'}:{m}:{k}:{c}"
+    kind = "read" if r < 0.75 else "try"
+    if cycle_ok and rng.random() < 0.35:
+        kind = {"read": "cread", "try": "ctry"}[kind]
+    return f"{kind}:{m}:{k}:{c}"
+
+
+TIERS = ["normal", "normal", "normal", "first", "last"]
+VIAS = ["add", "add", "call", "deco"]
 
 
 def gen_case(rng, max_ops):
@@ -705,24 +868,153 @@ def gen_case(rng, max_ops):
         inst_cls.append(c)
         ops.append(("inst", c))
     next_id = [0]
-    live = []
-    hook_of = {}
+    live = {}            # registration key -> (function id, class, hook, body, tier, via)
+    dead = []            # keys of removed registrations
+    roots_now = []       # what the root list holds (to draw positions that exist)
 
     def fresh():
         next_id[0] += 1
         return next_id[0] - 1
 
+    def a_class_of_an_instance():
+        return rng.choice(mros[rng.choice(inst_cls)])
+
     def add_impl():
         n = rng.randrange(nh)
         # register on a class that some instance actually resolves through (mostly)
         if rng.random() < 0.85:
-            c = rng.choice(mros[rng.choice(inst_cls)])
+            c = a_class_of_an_instance()
         else:
             c = rng.randrange(ncls)
         ident = fresh()
-        live.append(ident)
-        hook_of[ident] = n
-        return ("add", ident, c, n, gen_body(rng, n))
+        body = gen_body(rng, n, cycle_ok=True)
+        if rng.random() < 0.3:
+            # through the other registration APIs / into the tryfirst or trylast store
+            tier, via = rng.choice(TIERS), rng.choice(VIAS)
+            live[ident] = (ident, c, n, body, tier, via)
+            return ("reg", ident, ident, c, n, body, tier, via)
+        live[ident] = (ident, c, n, body, "normal", "add")
+        return ("add", ident, c, n, body)
+
+    def removal(key):
+        live.pop(key, None)
+        dead.append(key)
+
+    def inst_through(c):
+        """an instance whose class resolves through class c (else any)"""
+        cands = [k for k, ic in enumerate(inst_cls) if c in mros[ic]]
+        return rng.choice(cands) if cands else rng.randrange(len(inst_cls))
+
+    def fail_first():
+        """a read that FAILS first: an implementation (mostly one taking `cycle`) of hook n reads hook m, which has no
+        value yet; the hook is probed (read / has_value / re-evaluation / root evaluation), then the input is supplied (an
+        explicit value or an implementation) and the hook is read / re-evaluated again"""
+        n = rng.randrange(1, nh)
+        free = [m for m in range(n) if not any(v[2] == m for v in live.values())]
+        m = rng.choice(free) if free and rng.random() < 0.8 else rng.randrange(n)
+        c = a_class_of_an_instance()
+        i = inst_through(c)
+        kind = rng.choice(["cread", "cread", "cread", "ctry", "read"])
+        body = f"{kind}:{m}:{rng.choice([1, 2, 3, -1, 10])}:{rng.choice([0, 1, 100, -7])}"
+        key = fresh()
+        out = []
+        q = rng.random()
+        if q < 0.6:
+            out.append(("delete", i, m))
+        elif q < 0.8:
+            # the input is there but useless: an explicit callable yielding None makes `self.hm * k` a TypeError inside
+            # the implementation (a failure other than AttributeError)
+            out.append(("assign", i, m, f"c0:{fresh()}:N", rng.choice(KINDS["c0"])))
+        tier = rng.choice(["normal", "normal", "first", "last"])
+        live[key] = (key, c, n, body, tier, "add")
+        out.append(("reg", key, key, c, n, body, tier, rng.choice(VIAS)))
+        variant = rng.random()
+        if variant < 0.25:
+            # the failure happens inside reevaluate_cache: n is remembered, then its input disappears
+            out += [("assign", i, m, "p:" + rng.choice(VALS)), ("clear", i), ("read", i, n), ("delete", i, m),
+                    ("reeval", i)]
+        else:
+            if rng.random() < 0.6:
+                out.append(("clear", i))
+            for _ in range(rng.choice([1, 1, 2, 3])):
+                probe = rng.choice(["read", "hasvalue", "hasvalue", "evalroot"])
+                if probe == "evalroot":
+                    roots_now[:] = [(c, n)]
+                    out += [("roots", [(c, n)]), ("evalroot", i)]
+                else:
+                    out.append((probe, i, n))
+        # supply the input
+        if rng.random() < 0.6:
+            out.append(("assign", i, m, "p:" + rng.choice(VALS)))
+        else:
+            k2 = fresh()
+            c2 = a_class_of_an_instance() if rng.random() < 0.3 else rng.choice(mros[inst_cls[i]])
+            b2 = "const:" + rng.choice(VALS)
+            live[k2] = (k2, c2, m, b2, "normal", "add")
+            out.append(("add", k2, c2, m, b2))
+        for _ in range(rng.choice([1, 2, 2])):
+            out.append((rng.choice(["read", "read", "hasvalue"]), i, n))
+        if variant < 0.25 or rng.random() < 0.5:
+            out += [("reeval", i), ("read", i, n)]
+        return out, (i, n)
+
+    def same_function_again():
+        """one function registered more than once on a hook (permanently and for the extent of a `with` block, or a second
+        time with another priority), then ONE of the registrations removed; re-evaluation / a fresh computation must still
+        consult the other one"""
+        if not live:
+            return [add_impl()], None
+        key0 = rng.choice(list(live))
+        fn, c, n, body, _, _ = live[key0]
+        key1 = fresh()
+        c1 = c if rng.random() < 0.85 else rng.randrange(ncls)
+        tier = rng.choice(["first", "first", "last", "normal"])
+        via = rng.choice(["with", "with", "hf", "hf", "add", "call"])
+        live[key1] = (fn, c1, n, body, tier, via)
+        i = inst_through(c)
+        out = [("reg", key1, fn, c1, n, body, tier, via)]
+        if rng.random() < 0.6:
+            out += [("reeval", i), ("read", i, n)] if rng.random() < 0.5 else [("clear", i), ("read", i, n)]
+        victim = key1 if rng.random() < 0.6 else key0
+        out.append(("exit" if live[victim][5] == "with" and rng.random() < 0.8 else "remove", victim))
+        removal(victim)
+        if rng.random() < 0.5:
+            out += [("reeval", i), (rng.choice(["read", "read", "hasvalue", "hascached"]), i, n)]
+        else:
+            out += [("clear", i), (rng.choice(["read", "hasvalue"]), i, n)]
+        if rng.random() < 0.3 and len(inst_cls) < 5:
+            # a fresh instance computes from the same registrations
+            inst_cls.append(inst_cls[i])
+            out += [("inst", inst_cls[i]), ("read", len(inst_cls) - 1, n)]
+        return out, (i, n)
+
+    def root_edit(i):
+        """the root-hook list is edited through its API (plugins do that at import time), then evaluated"""
+        def entry():
+            return (a_class_of_an_instance(), rng.randrange(nh))
+
+        def present():
+            return rng.choice(roots_now) if roots_now and rng.random() < 0.85 else entry()
+        q = rng.random()
+        if q < 0.3:
+            e = entry()
+            op = ("radd", e)
+            roots_now.append(e)
+        elif q < 0.8:
+            pos, e = present(), entry()
+            op = ("rbefore" if q < 0.55 else "rafter", pos, e)
+            if pos in roots_now:
+                roots_now.insert(roots_now.index(pos) + (0 if q < 0.55 else 1), e)
+        else:
+            e = present()
+            op = ("rremove", e)
+            if e in roots_now:
+                k = max(j for j, x in enumerate(roots_now) if x == e)
+                del roots_now[k]
+        out = [op]
+        if rng.random() < 0.5:
+            out.append(("evalroot", i))
+        return out
 
     for _ in range(rng.choice([0, 1, 2, 3, 3, 4, 5, 6])):
         ops.append(add_impl())
@@ -734,6 +1026,7 @@ def gen_case(rng, max_ops):
             if e not in roots:
                 roots.append(e)
         ops.append(("roots", roots))
+        roots_now[:] = roots
     n_ops = rng.randrange(5, max_ops + 1)
     count = 0
     last = None
@@ -744,6 +1037,20 @@ def gen_case(rng, max_ops):
             i = rng.randrange(len(inst_cls))
             n = rng.randrange(nh)
         last = (i, n)
+        r0 = rng.random()
+        if r0 < 0.10:
+            # scripted histories for the life-cycle around failures, multiple registrations and the root list
+            if r0 < 0.04:
+                seq, tgt = fail_first()
+            elif r0 < 0.075:
+                seq, tgt = same_function_again()
+            else:
+                seq, tgt = root_edit(i), None
+            ops.extend(seq)
+            count += len(seq)
+            if tgt is not None:
+                last = tgt
+            continue
         r = rng.random()
         if r < 0.27:
             op = ("read", i, n)
@@ -778,15 +1085,20 @@ def gen_case(rng, max_ops):
         elif r < 0.70:
             op = add_impl()
         elif r < 0.74:
+            if dead and rng.random() < 0.06:
+                op = ("remove", rng.choice(dead))        # removing a registration that is gone already is harmless
+                ops.append(op)
+                count += 1
+                continue
             if not live:
                 continue
-            ident = rng.choice(live)
-            live.remove(ident)
-            op = ("remove", ident)
+            ident = rng.choice(list(live))
+            n = live[ident][2]
+            op = ("exit" if live[ident][5] == "with" and rng.random() < 0.7 else "remove", ident)
+            removal(ident)
             if rng.random() < 0.4:
                 # scripted follow-up: the registry changed - re-evaluate, then look at the hook that lost an implementation
                 # (reaches the remembered-None state: has_cached stays true, reads recompute)
-                n = hook_of[ident]
                 ops.append(op)
                 ops.append(("reeval", i))
                 ops.append((rng.choice(["hascached", "hassoc", "read", "hasvalue"]), i, n))
@@ -803,6 +1115,7 @@ def gen_case(rng, max_ops):
                 if e not in roots:
                     roots.append(e)
             op = ("roots", roots)
+            roots_now[:] = roots
         elif r < 0.95:
             op = ("evalroot", i)
         elif r < 0.97:
@@ -827,13 +1140,15 @@ def gen_case(rng, max_ops):
 # ---------------------------------------------------------------------------------------------------------------
 # running one case on implementation + oracle
 # ---------------------------------------------------------------------------------------------------------------
-def clause_key(op, ref_before, real_out, ref_out, real_st, ref_st, real_tr, ref_tr):
+def clause_key(op, ref_before, real_out, ref_out, real_st, ref_st, real_tr, ref_tr, real_roots=None, ref_roots=None):
     """stable key naming the clause of the property that fails"""
     name = op[0]
     if real_out != ref_out:
         aspect = "result"
     elif real_tr != ref_tr:
         aspect = "invocations"
+    elif real_roots != ref_roots:
+        aspect = "root-list"
     else:
         dr = [(c, sorted(d)) for (c, d, _, _) in real_st]
         de = [(c, sorted(d)) for (c, d, _, _) in ref_st]
@@ -843,17 +1158,48 @@ def clause_key(op, ref_before, real_out, ref_out, real_st, ref_st, real_tr, ref_
     return f"{name}-{aspect}"
 
 
-def run_case(case, want_obs=False):
+def twin_check(real, ref):
+    """'otherwise a freshly computed value': what a fresh computation yields depends on the explicit values of the object
+    and on the implementations registered at that moment - not on what was read, failed or remembered on the object before.
+    Every instance gets a TWIN (new instance of its class, the same explicit values, never read); the remembered values
+    of the original are dropped, and every hook is read on both, in the same order: outcome and invocations must agree.
+    Returns (instance, hook, observed on the original, observed on the twin) of the first difference, or None."""
+    for idx in range(len(real.insts)):
+        o = real.insts[idx]
+        cls = type(o)
+        twin = cls() if real.mode == "host" else cls(real.unit, real.Profile())
+        for k, v in list(o.__dict__.items()):
+            if HOOK_RE.match(k):
+                twin.__dict__[k] = v                      # the same explicit values (the same objects)
+        o.__cache__.clear()
+        for n in range(real.nhooks):
+            real.log.clear()
+            a = real.guarded(lambda: getattr(o, f"h{n}"))
+            ta = list(real.log)
+            real.log.clear()
+            b = real.guarded(lambda: getattr(twin, f"h{n}"))
+            tb = list(real.log)
+            real.log.clear()
+            if a != b or ta != tb:
+                return idx, n, [a, comma(ta)], [b, comma(tb)]
+    return None
+
+
+def run_case(case, want_obs=False, twin=True):
     """returns (observations for the model comparison, first oracle mismatch or None, stats)"""
     real = Real(case["mode"], case["nhooks"])
     ref = Ref()
     obs = []
     bad = None
     sources = set()
+    failed = set()           # (instance, hook) pairs whose evaluation failed at some time (according to the text)
+    complete = True
     for k, op in enumerate(case["ops"]):
         src = None
         if op[0] in ("read", "hasvalue"):
             src = ref.source(op[1], op[2])
+            if src == "computed" and ((op[1], op[2]) in failed or (op[1], None) in failed):
+                src = "computed-after-failure"
         order = None
         if op[0] == "reeval":
             order = [n for n in (HOOK_RE.match(x) and int(x[1:]) for x in real.insts[op[1]].__cache__) if n is not None]
@@ -862,6 +1208,7 @@ def run_case(case, want_obs=False):
         r_out = real.apply(op)
         r_tr = list(real.log)
         r_st = real.state()
+        r_roots = real.roots()
         before = copy.deepcopy(ref) if op[0] == "reeval" and order and len(order) <= 5 else None
         e_out = ref.apply(op, order)
         e_tr = list(ref.trace)
@@ -876,21 +1223,45 @@ def run_case(case, want_obs=False):
                     ref, e_out, e_tr, e_st = alt, a_out, list(alt.trace), alt.state()
                     sources.add("reeval-other-order")
                     break
+        e_roots = list(ref.roots)
         if src and r_out.startswith("val"):
             sources.add(src.split("-")[0])
-        obs.append(f"{r_out} | {comma(r_tr)} | {dump(r_st)}")
-        if bad is None and (r_out != e_out or r_tr != e_tr or dump(r_st, False) != dump(e_st, False)):
+        if e_out in ("AttributeError", "TypeError") or e_out.startswith(("vals:AttributeError", "vals:TypeError")) \
+                or (op[0] == "hasvalue" and e_out == "False"):
+            if op[0] in ("read", "hasvalue"):
+                failed.add((op[1], op[2]))
+                sources.add("failed")
+            elif op[0] in ("reeval", "evalroot"):
+                failed.add((op[1], None))
+                sources.add("failed")
+        obs.append(f"{r_out} | {comma(r_tr)} | {dump(r_st)} | act:{real.marks()} | "
+                   f"roots:{comma([f'{c}:{n}' for c, n in r_roots])}")
+        if bad is None and (r_out != e_out or r_tr != e_tr or dump(r_st, False) != dump(e_st, False)
+                            or r_roots != e_roots):
             info = {"op": to_line(op), "observed": [r_out, comma(r_tr), dump(r_st, False)],
                     "expected": [e_out, comma(e_tr), dump(e_st, False)]}
+            if r_roots != e_roots:
+                info["observed"].append("roots:" + comma([f"{c}:{n}" for c, n in r_roots]))
+                info["expected"].append("roots:" + comma([f"{c}:{n}" for c, n in e_roots]))
             if src and src.startswith("explicit-callable"):
                 # which kind of callable (lambda, bound method, partial ...) sits there: the latest assignment to (i, n)
                 last = [o for o in case["ops"][:k] if o[0] == "assign" and o[1:3] == op[1:3]][-1]
                 info["explicit"] = f"{last[3]} kind={last[4] if len(last) > 4 else 'lam'}"
-            bad = (k, clause_key(op, src, r_out, e_out, r_st, e_st, r_tr, e_tr), info)
+            bad = (k, clause_key(op, src, r_out, e_out, r_st, e_st, r_tr, e_tr, r_roots, e_roots), info)
             if not want_obs:
                 break
         if op[0] in STRUCTURAL and r_out != "ok":
+            complete = False
             break            # the class / instance does not exist: the rest of the history cannot be applied
+    if twin and bad is None and complete and real.insts:
+        d = twin_check(real, ref)
+        if d is not None:
+            idx, n, a, b = d
+            key = "fresh-computation-differs-from-twin" + ("-after-failure" if failed else "")
+            bad = (len(case["ops"]) - 1, key,
+                   {"op": f"(after the history) remembered values of instance {idx} dropped, h{n} read on it and on a "
+                          f"twin (new instance of the same class, the same explicit values)",
+                    "observed": a + ["-"], "expected": b + ["-"]})
     return obs, bad, sources
 
 
@@ -906,7 +1277,8 @@ def shrink(case, k, key):
             if ops[j][0] in STRUCTURAL:
                 continue
             cand = ops[:j] + ops[j + 1:]
-            if any(o[0] == "remove" and not any(p[0] == "add" and p[1] == o[1] for p in cand) for o in cand):
+            if any(o[0] in ("remove", "exit") and not any(p[0] in ("add", "reg") and p[1] == o[1] for p in cand)
+                   for o in cand):
                 continue
             try:
                 _, bad, _ = run_case({**case, "ops": cand})
@@ -991,6 +1363,38 @@ CORPUS = [
                      ("read", 0, 1), ("hasvalue", 0, 1))]
         + [x for j, k in enumerate(KINDS["c2"]) for x in (("assign", 0, 2, f"c2:{70 + j}", k), ("read", 0, 2))]
         + [("hascached", 0, 1), ("delete", 0, 1), ("read", 0, 1), ("hascached", 0, 2)]},
+    # a read that FAILS first: the `cycle`-aware implementation of h1 reads the missing h0 (a trylast stand-in is registered
+    # too); probed three times (read, has_value twice), then the input is supplied: the value is computed from the
+    # implementation, remembered, served silently; the same through a failed re-evaluation and a failed root evaluation
+    {"mode": "host", "nhooks": 3, "ops": [("class", 0, [0]), ("class", 1, [1, 0]), ("inst", 1), ("inst", 1),
+                                         ("reg", 0, 0, 0, 1, "cread:0:2:1", "normal", "deco"),
+                                         ("reg", 1, 1, 0, 1, "const:i7", "last", "add"),
+                                         ("reg", 2, 2, 1, 2, "ctry:1:1:100", "normal", "add"),
+                                         ("read", 0, 1), ("hasvalue", 0, 1), ("hasvalue", 0, 2), ("hascached", 0, 1),
+                                         ("assign", 0, 0, "p:i4"), ("read", 0, 1), ("read", 0, 1), ("read", 0, 2),
+                                         ("delete", 0, 0), ("reeval", 0), ("assign", 0, 0, "p:i5"), ("reeval", 0),
+                                         ("read", 0, 1), ("read", 0, 2), ("roots", [(0, 1)]), ("evalroot", 1),
+                                         ("add", 3, 1, 0, "const:i0"), ("evalroot", 1), ("read", 1, 1), ("read", 1, 2)]},
+    # one function registered permanently and for the extent of a `with hook(f, tryfirst=True):` block (also: handing in the
+    # HookFunction, a trylast duplicate); leaving the block / removing ONE registration keeps the other one in force
+    {"mode": "host", "nhooks": 2, "ops": [("class", 0, [0]), ("class", 1, [1, 0]), ("inst", 0), ("inst", 1),
+                                         ("add", 0, 0, 0, "const:i1"), ("add", 1, 0, 0, "const:i21"),
+                                         ("add", 2, 0, 0, "const:i5"), ("read", 0, 0), ("read", 1, 0),
+                                         ("reg", 3, 1, 0, 0, "const:i21", "first", "with"), ("read", 0, 0), ("reeval", 0),
+                                         ("read", 0, 0), ("exit", 3), ("reeval", 0), ("read", 0, 0), ("remove", 2),
+                                         ("reeval", 0), ("reeval", 1), ("read", 0, 0), ("read", 1, 0), ("inst", 0),
+                                         ("read", 2, 0), ("reg", 4, 1, 0, 0, "const:i21", "last", "hf"), ("remove", 4),
+                                         ("remove", 4), ("clear", 0), ("read", 0, 0), ("reg", 5, 1, 1, 0, "const:i21", "normal", "hf"),
+                                         ("remove", 1), ("clear", 1), ("read", 1, 0), ("clear", 0), ("read", 0, 0)]},
+    # the root-hook list edited through its API: insert_before / insert_after (first occurrence of the position), add (a
+    # duplicate is appended), remove_last (last occurrence), ValueError for an absent position; evaluation in list order
+    {"mode": "host", "nhooks": 3, "ops": [("class", 0, [0]), ("class", 1, [1, 0]), ("inst", 1),
+                                         ("add", 0, 0, 0, "const:i5"), ("add", 1, 1, 1, "read:0:10:0"),
+                                         ("add", 2, 0, 2, "try:1:1:1"), ("roots", [(1, 1)]), ("rbefore", (1, 1), (0, 0)),
+                                         ("evalroot", 0), ("rafter", (1, 1), (0, 2)), ("radd", (0, 0)), ("evalroot", 0),
+                                         ("rbefore", (0, 1), (0, 2)), ("rremove", (0, 0)), ("rremove", (1, 2)),
+                                         ("remove", 0), ("reeval", 0), ("read", 0, 0), ("evalroot", 0), ("rremove", (0, 0)),
+                                         ("evalroot", 0), ("read", 0, 1)]},
 ]
 
 
@@ -1101,6 +1505,185 @@ def real_units(ctx, n):
                                       "check_solved_sequence", **spec})
 
 
+
+# ---------------------------------------------------------------------------------------------------------------
+# shallow copies (`HookHost.__copy__`): hosts whose value stores are OBJECTS WITH IDENTITY
+#   model lean/PyrollModel/LifecycleCopy.lean, theorems lean/PyrollProps/C02Copy.lean.  Histories of
+#   `impl n v|N` (what the implementation of hook n yields), `new`, `copy i` (copy.copy), `assign i n v`, `delete i n`,
+#   `read i n`, `clear i` (`__cache__.clear()`), `rebind i` (`__cache__ = dict()`, what a constructor does) are applied to
+#   real HookHost objects and to the model; compared after every op: outcome, the ordered explicit values of every
+#   host, WHICH dictionary object every host refers to, and the contents of every dictionary object.
+#   Oracle (from the property text): explicit values are per object - a copy starts with those of its original, and
+#   an assignment / deletion on one object never shows on another; a read returns the explicit value when there is one.
+#   The property text does not speak about copies of the remembered values; that `copy.copy` SHARES the remembered-value
+#   dictionary (theorem `copy_not_independent`) is recorded as an observation (evidence counter), not as a violation.
+# ---------------------------------------------------------------------------------------------------------------
+COPY_WITNESS = ["impl 0 5", "new", "copy 0", "read 1 0"]        # `LifeCopy.witness` + the history of `copy_not_independent`
+
+
+class RealCopy:
+    def __init__(self, nhooks=3):
+        from pyroll.core import HookHost, Hook
+        self.impl = {}
+        impl = self.impl
+        dct = {f"h{k}": Hook[float]() for k in range(nhooks)}
+        self.cls = type("K", (HookHost,), dct)
+        for k in range(nhooks):
+            def f(self_, k=k):
+                return impl.get(k)
+            getattr(self.cls, f"h{k}").add_function(f)
+        self.hosts = []
+        self.dicts = []          # the dictionary objects seen so far, in order of first appearance (kept alive)
+
+    def ref(self, o):
+        d = o.__dict__.get("__cache__")
+        if d is None:
+            return "_"
+        for k, x in enumerate(self.dicts):
+            if x is d:
+                return k
+        self.dicts.append(d)
+        return len(self.dicts) - 1
+
+    def apply(self, t):
+        import copy as _copy
+        name = t[0]
+        try:
+            if name == "impl":
+                self.impl[int(t[1])] = None if t[2] == "N" else int(t[2])
+                return "ok"
+            if name == "new":
+                self.hosts.append(self.cls())
+                return "ok"
+            o = self.hosts[int(t[1])]
+            if name == "copy":
+                self.hosts.append(_copy.copy(o))
+                return "ok"
+            if name == "assign":
+                setattr(o, f"h{t[2]}", int(t[3]))
+                return "ok"
+            if name == "delete":
+                delattr(o, f"h{t[2]}")
+                return "ok"
+            if name == "read":
+                return f"val:{int(getattr(o, f'h{t[2]}'))}"
+            if name == "clear":
+                o.__cache__.clear()
+                return "ok"
+            if name == "rebind":
+                o.__cache__ = dict()
+                return "ok"
+        except AttributeError:
+            return "AttributeError"
+        raise ValueError(t)
+
+    def dump(self):
+        def entries(d):
+            es = [f"{int(k[1:])}={'N' if v is None else int(v)}" for k, v in d.items() if HOOK_RE.match(k)]
+            return ",".join(es) if es else "-"
+        hs = [f"h{k}:[{entries(o.__dict__)}]@{self.ref(o)}" for k, o in enumerate(self.hosts)]
+        ds = [f"s{k}:[{entries(d)}]" for k, d in enumerate(self.dicts)]
+        return f"{' '.join(hs)} | {' '.join(ds)}"
+
+
+def gen_copy_case(rng):
+    nh = 3
+    lines = [f"impl {n} {rng.choice(['N', 5, 0, 7, -2])}" for n in range(nh) if rng.random() < 0.8]
+    lines.append("new")
+    hosts = 1
+    for _ in range(rng.randrange(4, 25)):
+        i, n = rng.randrange(hosts), rng.randrange(nh)
+        r = rng.random()
+        if r < 0.22 and hosts < 5:
+            lines.append(f"copy {i}" if rng.random() < 0.8 else "new")
+            hosts += 1
+        elif r < 0.40:
+            lines.append(f"assign {i} {n} {rng.choice([0, 1, 3, 9, -4])}")
+        elif r < 0.48:
+            lines.append(f"delete {i} {n}")
+        elif r < 0.80:
+            lines.append(f"read {i} {n}")
+        elif r < 0.86:
+            lines.append(f"clear {i}")
+        elif r < 0.92:
+            lines.append(f"rebind {i}")
+        else:
+            lines.append(f"impl {n} {rng.choice(['N', 5, 6, 0, 11])}")
+    return lines
+
+
+def run_copy_case(lines):
+    """-> (observations, first oracle mismatch (k, key, info) or None, shared: did a value computed through one host appear
+    among the remembered values of another one?)"""
+    real = RealCopy()
+    explicit = []            # oracle: the explicit values of every host, by value
+    obs = []
+    bad = None
+    shared = False
+    for k, line in enumerate(lines):
+        t = line.split()
+        before = [dict((kk, v) for kk, v in o.__dict__.get("__cache__", {}).items()) for o in real.hosts]
+        out = real.apply(t)
+        obs.append(f"{out} | {real.dump()}")
+        if t[0] == "new":
+            explicit.append({})
+        elif t[0] == "copy":
+            explicit.append(dict(explicit[int(t[1])]))
+        elif t[0] == "assign":
+            explicit[int(t[1])][int(t[2])] = int(t[3])
+        elif t[0] == "delete":
+            explicit[int(t[1])].pop(int(t[2]), None)
+        got = [{int(kk[1:]): (None if v is None else int(v)) for kk, v in o.__dict__.items() if HOOK_RE.match(kk)}
+               for o in real.hosts]
+        exp_out = None
+        if t[0] == "read" and int(t[2]) in explicit[int(t[1])]:
+            exp_out = f"val:{explicit[int(t[1])][int(t[2])]}"
+        if bad is None and (got != explicit or (exp_out is not None and out != exp_out)
+                            or (t[0] in ("new", "copy", "assign", "delete") and out != "ok")):
+            key = "copy-explicit-values" if got != explicit else f"copy-{t[0]}-result"
+            bad = (k, key, {"op": line, "observed": [out, str(got)], "expected": [exp_out or "ok", str(explicit)]})
+        if t[0] == "read":
+            for j, o in enumerate(real.hosts):
+                if j != int(t[1]) and j < len(before) and dict(o.__dict__.get("__cache__", {})) != before[j]:
+                    shared = True
+    return obs, bad, shared
+
+
+def copy_histories(ctx, n):
+    cases = [list(COPY_WITNESS)] + [gen_copy_case(ctx.rng) for _ in range(n)]
+    lean_lines, all_obs = [], []
+    for idx, lines in enumerate(cases):
+        try:
+            obs, bad, shared = run_copy_case(lines)
+        except Exception as ex:
+            # the implementation behaved in a way the harness cannot observe (never on the code as it is): broken tie
+            ctx.count("harness-could-not-observe:" + type(ex).__name__)
+            ctx.disagreement(f"the harness could not drive / observe the implementation on this copy history: {ex!r}",
+                             {"copy_ops": lines})
+            continue
+        ctx.case(["copy"] + lines, nontrivial=any(x.startswith("copy") for x in lines))
+        ctx.count("copy-histories")
+        for x in lines:
+            ctx.count("copy-op:" + x.split()[0])
+        if shared:
+            # recorded, not a violation: see the comment block above and notes/C02.md ("Observation: shallow copy")
+            ctx.count("observed:shallow-copy-shares-remembered-values")
+            if idx == 0:
+                ctx.notes["copy_witness"] = {"ops": lines, "observed": obs[-1],
+                                             "meaning": "hook h0 read on the copy (host 1); the original (host 0) now "
+                                                        "remembers the value: both refer to dictionary object 0"}
+        if bad is not None:
+            k, key, info = bad
+            ctx.violation(key, f"{key}: after `{info['op']}` observed {info['observed']}, expected {info['expected']}",
+                          {"copy_ops": lines[:k + 1], **info,
+                           "how": "driver/props/c02.py run_copy_case: one HookHost subclass with hooks h0..h2 and constant "
+                                  "implementations, ops applied with RealCopy.apply"})
+        lean_lines.append("reset-copy")
+        lean_lines.extend(lines)
+        all_obs.append((lines, obs))
+    return lean_lines, all_obs
+
+
 # ---------------------------------------------------------------------------------------------------------------
 def run(ctx):
     REPORTED.clear()
@@ -1122,7 +1705,7 @@ def run(ctx):
                              {"mode": case["mode"], "nhooks": case["nhooks"], "ops": [to_line(o) for o in case["ops"]]})
             continue
         canon = [case["mode"], case["nhooks"]] + [to_line(o) for o in case["ops"]]
-        ctx.case(canon, nontrivial=len(sources - {"reeval", "reeval-other-order"}) >= 2 or "reeval" in sources)
+        ctx.case(canon, nontrivial=len(sources - {"reeval", "reeval-other-order", "failed"}) >= 2 or "reeval" in sources)
         ctx.count("mode:" + case["mode"])
         for o in case["ops"]:
             ctx.count("op:" + o[0])
@@ -1144,9 +1727,12 @@ def run(ctx):
         lean_lines.extend(to_line(o) for o in case["ops"][:len(obs)])
         all_obs.append((case, obs))
 
+    # ---- shallow copies (own little model; same driver process) -------------------------------------------------
+    copy_lines, copy_obs = copy_histories(ctx, ctx.budget(150, 3000))
+
     # ---- model side -----------------------------------------------------------------------------------------
     if getattr(ctx, "model_available", True):
-        out = ctx.lean_model(MODEL, lean_lines)
+        out = ctx.lean_model(MODEL, lean_lines + copy_lines)
         pos = 0
         for case, obs in all_obs:
             pos += 1
@@ -1160,6 +1746,17 @@ def run(ctx):
                                  {"mode": case["mode"], "nhooks": case["nhooks"],
                                   "ops": [to_line(o) for o in case["ops"][:diff + 1]],
                                   "impl": obs[diff], "model": seg[diff] if diff < len(seg) else None})
+        for lines, obs in copy_obs:
+            pos += 1
+            seg = out[pos:pos + len(obs)]
+            pos += len(obs)
+            diff = next((k for k in range(len(obs)) if k >= len(seg) or seg[k] != obs[k]), None)
+            if diff is None:
+                ctx.validated()
+            else:
+                ctx.disagreement(f"shallow-copy model and implementation differ after op #{diff} ({lines[diff]})",
+                                 {"copy_ops": lines[:diff + 1], "impl": obs[diff],
+                                  "model": seg[diff] if diff < len(seg) else None})
         if pos != len(out):
             ctx.disagreement("model output length mismatch", {"expected": pos, "got": len(out)})
 
@@ -1169,6 +1766,13 @@ def run(ctx):
 
 def replay(ctx, data):
     r = data.get("replay", data)
+    if "copy_ops" in r:
+        _, bad, _ = run_copy_case(list(r["copy_ops"]))
+        if bad is not None:
+            k, key, info = bad
+            ctx.violation(data.get("key", key), f"{key}: after `{info['op']}` observed {info['observed']}, expected "
+                                                f"{info['expected']}", {**r, **info})
+        return
     if "ops" not in r:
         raise ValueError("replay of a solved-sequence finding: re-run the check with the recorded seed")
     case = {"mode": r["mode"], "nhooks": r["nhooks"], "ops": [parse_line(x) for x in r["ops"]]}
